@@ -4,6 +4,7 @@ import (
 	"fmt"
 	"github.com/cuteLittleDevil/go-jt808/protocol/model"
 	"os"
+	"path/filepath"
 	"strings"
 )
 
@@ -75,6 +76,11 @@ func (f *fileEvent) OnEvent(progress *PackageProgress) {
 			len(progress.Record), progress.ExtensionFields.ActiveSafetyType.String())
 		_ = os.MkdirAll(phone, os.ModePerm)
 		for name, pack := range progress.Record {
+			if !filepath.IsLocal(name) {
+				// 文件名是终端上报的 不能让它跳出终端自己的目录
+				str += fmt.Sprintf("文件名不合法 不保存[%s]\n", name)
+				continue
+			}
 			savePath := fmt.Sprintf("./%s/%s", phone, name)
 			err := os.WriteFile(savePath, pack.StreamBody, os.ModePerm)
 			str += fmt.Sprintf("保存文件[%s] 文件大小[%d byte] 保存情况[%v]\n",
